@@ -25,6 +25,9 @@ from vf.refmodel import weyl as W
 PI4 = math.pi / 4
 TOL = 1e-6          # default reconstruction tolerance (DESIGN 4.1) where no atol is documented
 CHAMBER_TOL = 1e-8  # floating slack on the documented Weyl-chamber inequalities
+# kak_decomposition canonicalises with a fixed window of 1e-9 around x = pi/4 ((x, y, -z) -> (pi/2 - x, y, z)), so Cirq's own
+# coordinates may differ from the exact canonical ones by up to 2e-9 in x: count lower bounds get this much extra grey band
+CANON_SLACK = 2.5e-9
 
 
 def recon_tol(atol):
@@ -82,7 +85,7 @@ def _det(m):
 
 
 # --------------------------------------------------------------------------- linalg/decompositions.py
-def post_kak_decomposition(u, k, tol=TOL, x_tol=1e-9, who="kak_decomposition"):
+def post_kak_decomposition(u, k, tol=TOL, x_tol=1e-9, who="kak_decomposition", chamber_tol=CHAMBER_TOL):
     v = Verdicts()
     x, y, z = (float(t) for t in k.interaction_coefficients)
     b0, b1 = k.single_qubit_operations_before
@@ -95,7 +98,7 @@ def post_kak_decomposition(u, k, tol=TOL, x_tol=1e-9, who="kak_decomposition"):
           all(_is_unitary(m, tol) for m in (b0, b1, a0, a1)) and abs(abs(g) - 1) <= tol, "a KAK factor is not unitary")
     v.add(who + ":rebuild", "C15:%s:rebuild" % who, L.allclose(rebuilt, u, tol),
           lambda: "max |g (a (x) a) exp(i(xXX+yYY+zZZ)) (b (x) b) - U| = %.3g" % L.maxdiff(rebuilt, u))
-    v.add(who + ":weyl-chamber", "C15:%s:outside-weyl-chamber" % who, W.in_weyl_chamber(x, y, z, CHAMBER_TOL),
+    v.add(who + ":weyl-chamber", "C15:%s:outside-weyl-chamber" % who, W.in_weyl_chamber(x, y, z, chamber_tol),
           "interaction coefficients (%.12g, %.12g, %.12g) violate 0 <= |z| <= y <= x <= pi/4" % (x, y, z))
     v.add(who + ":weyl-z-sign", "C15:%s:z-negative-at-x=pi/4" % who, W.chamber_z_sign_ok(x, z, 0.5 * x_tol, 1e-12),
           "x = pi/4 (within atol) but z = %.6g < 0" % z)
@@ -135,8 +138,9 @@ def same_kak_vector(v1, v2, tol=TOL, x_band=1e-4):
 
 
 def post_kak_canonicalize_vector(x, y, z, atol, k, tol=TOL):
+    """x within atol below pi/4 with z < 0 is mapped to pi/2 - x, i.e. up to atol above pi/4: the chamber slack is atol."""
     target = W.interaction(x, y, z)
-    v = post_kak_decomposition(target, k, tol=tol, x_tol=atol, who="kak_canonicalize_vector")
+    v = post_kak_decomposition(target, k, tol=tol, x_tol=atol, who="kak_canonicalize_vector", chamber_tol=max(CHAMBER_TOL, 1.01 * atol))
     return v
 
 
@@ -358,7 +362,7 @@ def post_cz_operations(q0, q1, u, ops, allow_partial_czs, atol, clean, coords=No
               "exponents %r" % [getattr(op.gate, "exponent", None) for op in two])
         if coords is not None:
             hi = W.cz_class(coords, 0.5 * atol)
-            lo = W.cz_class(coords, 2.0 * atol + 1e-10)
+            lo = W.cz_class(coords, 2.0 * atol + CANON_SLACK)
             v.add(who + ":count-minimal", "C15:%s:cz-count-not-minimal" % who, len(two) <= hi,
                   "%d CZ used, %d suffice for Weyl coordinates (%.9g, %.9g, %.9g)" % ((len(two), hi) + tuple(coords)))
             v.add(who + ":count-sufficient", "C15:%s:cz-count-too-small" % who, len(two) >= lo,
@@ -424,7 +428,7 @@ def sqrt_iswap_feasibility(coords, r, atol):
     wt = atol / 10.0
     if sqrt_iswap_region(coords, r, 0.5 * wt):
         return "yes"
-    if not sqrt_iswap_region(coords, r, 2.0 * wt + 1e-10):
+    if not sqrt_iswap_region(coords, r, 2.0 * wt + CANON_SLACK):
         return "no"
     return "either"
 
@@ -450,7 +454,7 @@ def post_sqrt_iswap(q0, q1, u, ops, required, use_inv, atol, clean, coords):
     else:
         wt = atol / 10.0
         hi = W.sqrt_iswap_class(coords, 0.5 * wt)
-        lo = W.sqrt_iswap_class(coords, 2.0 * wt + 1e-10)
+        lo = W.sqrt_iswap_class(coords, 2.0 * wt + CANON_SLACK)
         v.add(who + ":count-minimal", "C15:%s:count-not-minimal" % who, len(two) <= hi,
               "%d sqrt-iSWAP used, %d suffice for Weyl coordinates (%.9g, %.9g, %.9g)" % ((len(two), hi) + tuple(coords)))
         v.add(who + ":count-sufficient", "C15:%s:count-too-small" % who, len(two) >= lo,
